@@ -323,16 +323,18 @@ type memberSnap struct {
 	inHand bool
 	gc     int
 	ids    map[string]bool
+	seatTaken map[int]bool
 }
 
 func (m *tableMon) memberBefore() *memberSnap {
 	tb := m.w.eng.GetTable()
-	s := &memberSnap{seq: m.c.Seq(), bank: map[string]int64{}, ids: map[string]bool{}, gc: tb.State.GameCount}
+	s := &memberSnap{seq: m.c.Seq(), bank: map[string]int64{}, ids: map[string]bool{}, gc: tb.State.GameCount, seatTaken: map[int]bool{}}
 	s.table, _ = tb.GetJSON()
 	s.sm = m.smJSON()
 	for _, p := range tb.State.PlayerStates {
 		s.bank[p.PlayerID] = p.Bankroll
 		s.ids[p.PlayerID] = true
+		s.seatTaken[p.Seat] = true
 	}
 	s.roster = rosterOf(tb)
 	s.inHand = tb.State.GameState != nil || tb.State.Status == pt.TableStateStatus_TableGameOpened
@@ -368,6 +370,17 @@ func (m *tableMon) memberAfter(kind string, before, after *memberSnap, atomic bo
 			tu = nil
 		} else {
 			tu.returnSeq = retSeq
+		}
+	}
+	if err != nil && atomic && kind == "reserve" && len(joins) == 1 {
+		// C03(c): a reservation that is valid on the state it met must succeed (a vacated seat can be
+		// taken again; a table that is not full accepts a random seat)
+		jp := joins[0]
+		n := tb.Meta.TableMaxSeatCount
+		valid := !before.ids[jp.PlayerID] && len(before.ids) < n && (jp.Seat == -1 || (jp.Seat >= 0 && jp.Seat < n && !before.seatTaken[jp.Seat]))
+		c.Judged("C03.reserve_validity")
+		if valid {
+			c.Viol("C03", "C03.valid_reserve_refused", map[string]any{"random_seat": jp.Seat == -1}, "reservation of new player %s (seat %d) was refused (%v) although the table has %d of %d seats occupied and the seat is free: %s", jp.PlayerID, jp.Seat, err, len(before.ids), n, before.sm)
 		}
 	}
 	if err != nil {
